@@ -244,6 +244,13 @@ func runC02(r *vk.Run) {
 		// time range with sub-second parts
 		start := int64(1700000000)*1e9 + rng.I64n(50e9)
 		end := int64(1700000200)*1e9 + rng.I64n(50e9)
+		if c.Idx%5 == 2 {
+			// bounds in the very last nanoseconds of a second (the inclusive end of a day, 23:59:59.999999999):
+			// still inside that second
+			start = start/1e9*1e9 + vk.Pick(rng, []int64{999999999, 999999900, 999999881, 999999500, 1})
+			end = end/1e9*1e9 + vk.Pick(rng, []int64{999999999, 999999950, 999999882, 999000000, 0})
+			c.Count("bounds_in_the_last_nanoseconds_of_a_second", 1)
+		}
 		if rng.Chance(1, 5) {
 			start = start / 1e9 * 1e9
 		}
